@@ -747,7 +747,6 @@ func CheckRequestState(w *World, r *rux.Router, pm *PModel, method, path string,
 		return "", info, nil
 	}
 	st := w.NewRequest(method, path, faults...)
-	st.NoAbt = len(chain) == 63 // known finding K1: IsAborted is not observed for chains of exactly 63 handlers
 	real := st.Serve(r)
 	want, _ := ModelDispatch(chain, pm.Hooks, NewRec(faults...), st.Req, ps, st.NoAbt)
 	if d := Diff(real, want); d != "" {
